@@ -1,6 +1,7 @@
 CONSTANTS
 Clusters = {1, 2, 3}
 RPCs = {1, 2, 3, 4, 5, 6}
+MaxMult = 2
 Mutant = 0
 Eager = TRUE
 INIT Init
